@@ -86,7 +86,8 @@ def _msn_pure(c):
 
 
 @contract(S + "Image._add_count_to_name#pure", abstract=True, assumed=True,
-          note="_add_count_to_name is a function of (name, count)")
+          note="_add_count_to_name is a function of (name, count); that different counts give different names is NOT assumed but proved of the real "
+               "function: lemma:counted_names_differ_for_different_counts")
 def _act_pure(c):
     c.param("name", "str")
     c.param("count", "int")
@@ -323,3 +324,18 @@ def _mk_export(n):
 
 for _n in (1, 2):
     _mk_export(_n)
+
+
+@contract("lemma:counted_names_differ_for_different_counts", props=["C06", "C10", "C05"], lemma_module="smpl_extract.structural",
+          lemma_deps=[S + "Image._add_count_to_name"],
+          lemma_src="def two(img, name, a, b):\n    return (img._add_count_to_name(name, a), img._add_count_to_name(name, b))\n")
+def _inj(c):
+    # discharges the `count_read_back` assumption of the abstract _add_count_to_name#pure contract: for one base name, different
+    # counters give different counted names (so the "find a free counted name" loops cannot run forever over a finite set of taken names)
+    c.param("img", ("obj", "smpl_extract.structural:Image", {}))
+    c.param("name", "str")
+    c.param("a", "int")
+    c.param("b", "int")
+    c.use = {S + "Image._add_count_to_name": "inline"}
+    c.requires("a >= 0 and b >= 0 and a != b")
+    c.ensures("result[0] != result[1]", "different-counters-give-different-names")
